@@ -15,6 +15,9 @@ META = dict(
 )
 
 
+SPLIT_DEPTH = 10
+
+
 def tasks(tier):
     out = []
     if tier == "quick":
